@@ -52,10 +52,11 @@ flush_before_rename!(c10_unspent_flush_2, 2);
 flush_before_rename!(c10_unspent_flush_0, 0);
 
 // C02: file name; C07 unspent_rows: row content with real formatting (one entry, symbolic small index)
-//@ id=C02,C07 tier=quick name=c07_unspent_row timeout=2400 role=unspent_rows bound=1-entry,index<10-symbolic,height/value-single-digit,start-7,last-99 mem=20 fn=UnspentCsvDump::on_complete,UnspentCsvDump::on_start
+//@ id=C02,C07 tier=thorough name=c07_unspent_row timeout=5400 role=unspent_rows bound=1-entry,index<10-symbolic,height/value-single-digit,start-7,last-99 mem=20 fn=UnspentCsvDump::on_complete,UnspentCsvDump::on_start
 #[kani::proof]
 #[kani::unwind(70)]
 fn c07_unspent_row() {
+    unsafe { gfs::LOG_CONTENT.v = true; }
     let idx: u32 = kani::any();
     let h: u64 = kani::any();
     let val: u64 = kani::any();
